@@ -281,3 +281,266 @@ def monitor_c15(se, stats):
                         viol.append({"step": i, "what": "`%s` on channel %d.%d removed deliveries %s of channel %d.%d" % (st["op"], c, h, lost, key[0], key[1])})
         prev = cur
     return viol
+
+
+# ---------------------------------------------------------------- C01 / C02 / C03
+def _deliveries(st, pre):
+    """[(conn, chan, kind, uid, dtag, redelivered, queue, noack, exchange, key, header_size, pers, body_lens, corrupt)] of a step.
+    queue / noack are resolved from the state before the step (consumer by tag) or from the GET op."""
+    out = []
+    fr = frames_of(st)
+    f = st["op"].split()
+    i = 0
+    while i < len(fr):
+        c, h, name, args, tail = fr[i]
+        if name in ("basic.deliver", "basic.get-ok", "basic.return"):
+            hdr = None
+            bodies = []
+            corrupt = False
+            j = i + 1
+            while j < len(fr) and fr[j][0] == c and fr[j][1] == h and fr[j][2] in ("header", "body"):
+                if fr[j][2] == "header" and hdr is None:
+                    hdr = fr[j][3]
+                elif fr[j][2] == "body":
+                    bodies.append(int(fr[j][3][1]))
+                    corrupt = corrupt or ("CORRUPT" in fr[j][4])
+                j += 1
+            uid = hdr[0] if hdr else "?"
+            rec = dict(conn=c, chan=h, kind=name, uid=uid, hsize=int(hdr[1]) if hdr else -1, pers=(hdr[2] == "1") if hdr else None,
+                       bodies=bodies, corrupt=corrupt)
+            if name == "basic.deliver":
+                rec.update(ctag=args[0], dtag=int(args[1]), red=args[2] == "1", ex=args[3], key=args[4])
+                q, noack = None, None
+                for key, ch in (pre["chans"].items() if pre else []):
+                    if key == (c, h):
+                        for cm in ch["consumers"]:
+                            if cm["tag"] == args[0]:
+                                q, noack = cm["queue"], cm["noack"]
+                if q is None and f[0] == "CONS" and (int(f[1]), int(f[2])) == (c, h) and f[4] == args[0]:
+                    q, noack = de(f[3]), f[5] == "1"
+                rec.update(queue=q, noack=noack)
+            elif name == "basic.get-ok":
+                rec.update(dtag=int(args[0]), red=args[1] == "1", ex=args[2], key=args[3], queue=de(f[3]) if f[0] == "GET" else None,
+                           noack=(f[4] == "1") if f[0] == "GET" else None)
+            else:
+                rec.update(code=int(args[0]), ex=args[1], key=args[2], queue=None, noack=None, red=False, dtag=None)
+            out.append(rec)
+            i = j
+        else:
+            i += 1
+    return out
+
+
+def _held(snap, qborn, uborn, i):
+    """per queue: (ready list, [(chan key, tag, uid)] unacked that belong to the current queue object)"""
+    held = {}
+    for qn, q in snap["queues"].items():
+        held[qn] = (list(q["ready"]), [])
+    for key, ch in snap["chans"].items():
+        for u in ch["unacked"]:
+            k = (key, u["tag"], u["uid"])
+            if u["queue"] in held and uborn.get(k, i) >= qborn.get(u["queue"], 0):
+                held[u["queue"]][1].append((key, u["tag"], u["uid"]))
+    return held
+
+
+def monitor_c01(se, stats):
+    """No accepted message is lost: per queue, published-and-routed = settled + purged + still held (ready or unsettled)."""
+    viol = []
+    prev = None
+    qborn, uborn = {}, {}
+    for i, st in enumerate(se["steps"]):
+        if st["snap"] == ["WEDGED"]:
+            break
+        cur = parse_snap(st["snap"])
+        for qn in cur["queues"]:
+            if prev is None or qn not in prev["queues"]:
+                qborn[qn] = i
+        live = set()
+        for key, ch in cur["chans"].items():
+            for u in ch["unacked"]:
+                k = (key, u["tag"], u["uid"])
+                live.add(k)
+                uborn.setdefault(k, i)
+        if prev is not None:
+            f = st["op"].split()
+            hp, hc = _held(prev, qborn, uborn, i), _held(cur, qborn, uborn, i)
+            dels = _deliveries(st, prev)
+            for qn in hc:
+                if qn not in hp or qborn.get(qn) == i:
+                    continue
+                before = sorted(hp[qn][0] + [x[2] for x in hp[qn][1]])
+                after = sorted(hc[qn][0] + [x[2] for x in hc[qn][1]])
+                b, a = list(before), list(after)
+                for x in list(a):
+                    if x in b:
+                        b.remove(x); a.remove(x)
+                lost, gained = b, a
+                stats["queue_transitions"] = stats.get("queue_transitions", 0) + 1
+                pub_uid = f[8] if f[0] == "PUB" else (f[5] if f[0] == "HDR" else None)
+                for x in gained:
+                    if x != pub_uid:
+                        viol.append({"step": i, "what": "message %s appeared in queue %s without being published to it (after `%s`)" % (x, qn, st["op"])})
+                for x in lost:
+                    ok = False
+                    if f[0] == "ACK":
+                        ok = True
+                    elif f[0] == "NACK" and f[5] == "0":
+                        ok = True
+                    elif f[0] == "REJ" and f[4] == "0":
+                        ok = True
+                    elif f[0] == "QP" and de(f[3]) == qn:
+                        ok = True
+                    elif any(d["uid"] == x and d["noack"] for d in dels if d["kind"] != "basic.return" and d["queue"] == qn):
+                        ok = True
+                    if not ok:
+                        viol.append({"step": i, "what": "message %s vanished from queue %s (it was %s) after `%s`" % (
+                            x, qn, "waiting" if x in hp[qn][0] else "delivered and unsettled", st["op"])})
+                if lost:
+                    stats["settlements_seen"] = stats.get("settlements_seen", 0) + len(lost)
+        for k in list(uborn):
+            if k not in live:
+                del uborn[k]
+        prev = cur
+    return viol
+
+
+def monitor_c02(se, stats):
+    """No phantom or duplicate deliveries; redeliveries are flagged; content arrives as published."""
+    viol = []
+    prev = None
+    published = {}          # uid -> (exchange, key, size, pers, body lens)
+    delivered_from = {}     # (uid, queue, birth) -> count of deliveries
+    settled = set()         # (uid, queue, birth) settled for good
+    qborn = {}
+    for i, st in enumerate(se["steps"]):
+        if st["snap"] == ["WEDGED"]:
+            break
+        cur = parse_snap(st["snap"])
+        f = st["op"].split()
+        for qn in cur["queues"]:
+            if prev is None or qn not in prev["queues"]:
+                qborn[qn] = i
+        if f[0] == "PUB":
+            lens = [] if f[9] in ("0", "-") else [int(x) for x in f[9].split("+")]
+            published[f[8]] = (de(f[3]), de(f[4]), sum(lens), f[7] == "1", lens)
+        dels = _deliveries(st, prev)
+        for d in dels:
+            stats["deliveries_checked"] = stats.get("deliveries_checked", 0) + 1
+            uid = d["uid"]
+            if uid not in published:
+                viol.append({"step": i, "what": "delivery of a message that was never published (uid %s) after `%s`" % (uid, st["op"])})
+                continue
+            ex, key, size, pers, lens = published[uid]
+            if d["corrupt"] or d["hsize"] != size or sum(d["bodies"]) != size or d["pers"] != pers or d["ex"] != ex or d["key"] != key:
+                viol.append({"step": i, "what": "message %s delivered altered: exchange/key %s/%s size %d bodies %s persistent %s corrupt %s, published %s/%s size %d persistent %s" % (
+                    uid, d["ex"], d["key"], d["hsize"], d["bodies"], d["pers"], d["corrupt"], ex, key, size, pers)})
+            if d["kind"] == "basic.return" or d["queue"] is None:
+                continue
+            k = (uid, d["queue"], qborn.get(d["queue"], 0))
+            if k in settled:
+                viol.append({"step": i, "what": "message %s delivered again from queue %s after it had been settled (after `%s`)" % (uid, d["queue"], st["op"])})
+            n = delivered_from.get(k, 0)
+            if n > 0 and not d["red"]:
+                viol.append({"step": i, "what": "message %s redelivered from queue %s without the redelivered flag (after `%s`)" % (uid, d["queue"], st["op"])})
+            if prev is not None and n > 0:
+                # a second delivery needs the first to have been returned: it may not still be unsettled from before this step
+                # unless this very step returned it (nack/reject requeue, channel or connection end)
+                still = [u for ch in prev["chans"].values() for u in ch["unacked"] if u["uid"] == uid and u["queue"] == d["queue"]]
+                if still and f[0] not in ("NACK", "REJ", "CHCLOSE", "CHCLOSEOK", "DROP", "CLOSE", "CLOSEOK"):
+                    viol.append({"step": i, "what": "message %s delivered from queue %s while an earlier delivery of it is still unsettled (after `%s`)" % (uid, d["queue"], st["op"])})
+            delivered_from[k] = n + 1
+            if d["noack"]:
+                settled.add(k)
+        # settlements by this step: entries that left an unacked list through ack / reject without requeue
+        if prev is not None and f[0] in ("ACK", "NACK", "REJ"):
+            requeue = (f[0] == "NACK" and f[5] == "1") or (f[0] == "REJ" and f[4] == "1")
+            if not requeue and not any(":channel.close(" in x for x in st["frames"]):
+                c, h = int(f[1]), int(f[2])
+                pch, cch = prev["chans"].get((c, h)), cur["chans"].get((c, h))
+                if pch and cch:
+                    left = {(u["tag"], u["uid"], u["queue"]) for u in pch["unacked"]} - {(u["tag"], u["uid"], u["queue"]) for u in cch["unacked"]}
+                    for (_, uid, qn) in left:
+                        settled.add((uid, qn, qborn.get(qn, 0)))
+        if prev is not None and f[0] == "QP" and any(":queue.purge-ok" in x for x in st["frames"]):
+            qn = de(f[3])
+            for uid in prev["queues"].get(qn, {"ready": []})["ready"]:
+                settled.add((uid, qn, qborn.get(qn, 0)))
+        # at most one holder per copy
+        holders = {}
+        for qn, q in cur["queues"].items():
+            for uid in q["ready"]:
+                holders[(uid, qn)] = holders.get((uid, qn), 0) + 1
+        for key, ch in cur["chans"].items():
+            for u in ch["unacked"]:
+                if u["queue"] in cur["queues"]:
+                    holders[(u["uid"], u["queue"])] = holders.get((u["uid"], u["queue"]), 0) + 1
+        for (uid, qn), n in holders.items():
+            if n > 1 and uid != "?":
+                # an orphan of a deleted queue of the same name may coexist with a copy in the new queue
+                viol.append({"step": i, "what": "message %s has %d holders in queue %s at once (after `%s`)" % (uid, n, qn, st["op"])})
+        prev = cur
+    return viol
+
+
+def monitor_c03(se, stats):
+    """Per-queue FIFO: first deliveries of one publisher channel's messages leave a queue in publication order; a batch
+    returned together comes back ahead of the waiting messages, in delivery order."""
+    viol = []
+    prev = None
+    pub = {}             # uid -> (publisher (c,h), step)
+    first = {}           # (queue, birth) -> list of (uid) in first-delivery order
+    seen = set()
+    qborn = {}
+    for i, st in enumerate(se["steps"]):
+        if st["snap"] == ["WEDGED"]:
+            break
+        cur = parse_snap(st["snap"])
+        f = st["op"].split()
+        for qn in cur["queues"]:
+            if prev is None or qn not in prev["queues"]:
+                qborn[qn] = i
+        if f[0] == "PUB":
+            pub[f[8]] = ((int(f[1]), int(f[2])), i)
+        dels = [d for d in _deliveries(st, prev) if d["kind"] != "basic.return" and d["queue"]]
+        for d in dels:
+            k = (d["queue"], qborn.get(d["queue"], 0))
+            if (d["uid"], k) in seen or d["uid"] not in pub:
+                continue
+            seen.add((d["uid"], k))
+            stats["first_deliveries"] = stats.get("first_deliveries", 0) + 1
+            p, ps = pub[d["uid"]]
+            for other in first.get(k, []):
+                op_, os_ = pub[other]
+                if op_ == p and os_ > ps:
+                    viol.append({"step": i, "what": "queue %s: message %s (published later on channel %s) was first delivered before message %s (after `%s`)" % (
+                        d["queue"], other, p, d["uid"], st["op"])})
+            first.setdefault(k, []).append(d["uid"])
+        # batch return order (only where the outcome does not depend on goroutine timing)
+        if prev is not None and se.get("kind") == "exact" and f[0] in ("NACK", "CHCLOSE", "CHCLOSEOK", "DROP", "CLOSE"):
+            c = int(f[1])
+            chans = [(c, int(f[2]))] if f[0] in ("NACK", "CHCLOSE", "CHCLOSEOK") else sorted([k for k in prev["chans"] if k[0] == c], reverse=True)
+            if f[0] == "NACK" and not (f[4] == "1" and f[5] == "1"):
+                chans = []
+            if f[0] == "CHCLOSEOK" and prev["chans"].get(chans[0], {"st": 0})["st"] != 2:
+                chans = []
+            if any(":channel.close(" in x or ":connection.close(" in x for x in st["frames"]):
+                chans = []
+            for qn, q in prev["queues"].items():
+                block = []
+                for key in chans:            # connection teardown closes the highest channel first: its block ends up behind
+                    pch = prev["chans"].get(key)
+                    if not pch:
+                        continue
+                    upto = int(f[3]) if f[0] == "NACK" else 0
+                    mine = [u for u in sorted(pch["unacked"], key=lambda u: u["tag"]) if u["queue"] == qn and (upto == 0 or u["tag"] <= upto)]
+                    block = [u["uid"] for u in mine] + block
+                if not block or qn not in cur["queues"]:
+                    continue
+                got = [d["uid"] for d in dels if d["queue"] == qn] + cur["queues"][qn]["ready"]
+                want = block + q["ready"]
+                stats["batch_returns"] = stats.get("batch_returns", 0) + 1
+                if got != want:
+                    viol.append({"step": i, "what": "queue %s after `%s`: returned batch + waiting messages leave as %s, expected %s" % (qn, st["op"], got, want)})
+        prev = cur
+    return viol
